@@ -74,9 +74,14 @@ Definition hcp_candidates (both : bool) (v : V4) : list V4 :=
 (* HCP::GenerateEquivalentIBurgers: both signs of the c index *)
 Definition hcp_burgers (b : V4) : list V4 := dedup burgers_same (hcp_candidates true b).
 (* HCP::GenerateEquivalentPlanes.  [both = false] is the pinned code (the fourth index is never negated);
-   [both = true] is the code with props/C56/fix_hcp_planes.diff applied.  check.py determines which of the two
-   the working tree corresponds to. *)
-Definition hcp_planes (both : bool) (p : V4) : list V4 := dedup plane_same (map reduce4 (hcp_candidates both p)).
+   [both = true] is the code with props/C56/fix_hcp_planes.diff applied (a second pass over the arrangements with
+   the opposite fourth index, so that the planes found by the pinned code keep their rank and sign).  check.py
+   determines which of the two the working tree corresponds to. *)
+Definition hcp_plane_candidates (both : bool) (v : V4) : list V4 :=
+  let '(a, b, c, d) := v in
+  hcp_candidates false v ++ (if both && negb (d =? 0) then hcp_candidates false (a, b, c, - d) else []).
+Definition hcp_planes (both : bool) (p : V4) : list V4 :=
+  dedup plane_same (map reduce4 (hcp_plane_candidates both p)).
 Definition hcp_systems (both : bool) (b p : V4) : option (list (V4 * V4)) :=
   if dot4 p b =? 0 then Some (select dot4 (hcp_planes both p) (hcp_burgers b)) else None.
 
